@@ -39,6 +39,22 @@ Lemma bindv_getv m v : bindv m (getv (bindv m v)) = bindv m v.
 Proof. destruct m; reflexivity. Qed.
 
 (* ---------- primitives ---------- *)
+(* InputRef::skip n times: to min (cur + n) |input|, the inspector sees every skipped token *)
+Lemma skip_loop_spec : forall k s, inv s ->
+  cur (skip_loop toks k s) = Nat.max (cur s) (Nat.min (cur s + k) (length toks)) /\ sec (skip_loop toks k s) = sec s /\
+  alt (skip_loop toks k s) = alt s /\ inv (skip_loop toks k s).
+Proof.
+  induction k as [|k IH]; intros s Hi; cbn [skip_loop].
+  - repeat split; auto. lia.
+  - unfold next. destruct (nth_error toks (cur s)) as [t|] eqn:Et; cbn [snd].
+    + assert (Hlt : cur s < length toks) by (apply nth_error_Some; congruence).
+      destruct (IH (mkSt (S (cur s)) (sec s) (alt s) (on_tok t (ust s)) (memo s))) as (Hc & Hs & Ha & Hv).
+      { unfold Base.inv. cbn. rewrite (ust_at_S _ _ _ Et). now rewrite Hi. }
+      cbn [cur sec alt] in *. repeat split; auto. rewrite Hc. lia.
+    + assert (Hge : length toks <= cur s) by (apply nth_error_None; assumption).
+      destruct (IH s Hi) as (Hc & Hs & Ha & Hv). repeat split; auto. rewrite Hc. lia.
+Qed.
+
 Lemma one_tok_refines m acc exp s r s1 :
   one_tok m acc exp s = (r, s1) -> inv s ->
   post m s r s1 (Some (one_tok_sem K toks spn acc exp (cur s) (alt s))).
@@ -302,7 +318,7 @@ Proof.
     + destruct P as (v' & ems & -> & ?). exists v', ems. auto.
     + destruct P as (ext & c'' & -> & ?). exists ext, (SCount c''). auto.
   - (* IEnum *)
-    destruct its as [|k js| |]; try (injection H as <- <- <-; exact I).
+    destruct its as [|k js| | |]; try (injection H as <- <- <-; exact I).
     destruct (it_next spn run m j ctx js s) as [[r0 js'] s2] eqn:E.
     pose proof (IHj _ _ _ _ _ _ _ E Hi) as P.
     destruct r0; injection H as <- <- <-; cbn in *; auto.
@@ -324,20 +340,24 @@ Proof.
     + destruct P as (v' & ems & -> & -> & Hsec & Hu). eexists _, ems. rewrite mapv_bindv, Hu. auto.
     + destruct P as (ext & c'' & -> & ?). exists ext, c''. auto.
   - (* IOrNot *)
-    destruct its as [| |fin|]; try (injection H as <- <- <-; exact I).
+    destruct its as [| |fin| |]; try (injection H as <- <- <-; exact I).
     destruct fin.
     + injection H as <- <- <-. exists []. rewrite app_nil_r. repeat split; auto.
     + destruct (run m a ctx s) as [r1 s2] eqn:E. use HR E. destruct r1; injection H as <- <- <-; try exact I.
       * ok_elim P. exists v', ems. auto.
       * err_elim P. rewrite (rewind_save _ _ _ Hsec). exists []. cbn. rewrite app_nil_r. repeat split; auto.
   - (* IRepCfg *)
-    destruct its as [| | |c clo chi]; try (injection H as <- <- <-; exact I).
-    destruct (rep_next run m a clo chi ctx c s) as [[r0 c'] s2] eqn:E. injection H as <- <- <-.
-    pose proof (rep_next_refines _ _ _ _ _ _ _ _ _ _ E Hi) as P.
-    destruct r0; cbn in *; auto.
-    + destruct P as (ems & -> & ?). exists ems. auto.
-    + destruct P as (v' & ems & -> & ?). exists v', ems. auto.
-    + destruct P as (ext & c'' & -> & ?). exists ext, (SCfg c'' clo chi). auto.
+    destruct its as [| | |c clo chi|k]; try (injection H as <- <- <-; exact I).
+    + destruct (rep_next run m a clo chi ctx c s) as [[r0 c'] s2] eqn:E. injection H as <- <- <-.
+      pose proof (rep_next_refines _ _ _ _ _ _ _ _ _ _ E Hi) as P.
+      destruct r0; cbn in *; auto.
+      * destruct P as (ems & -> & ?). exists ems. auto.
+      * destruct P as (v' & ems & -> & ?). exists v', ems. auto.
+      * destruct P as (ext & c'' & -> & ?). exists ext, (SCfg c'' clo chi). auto.
+    + (* try_configure whose closure failed *)
+      destruct (run m (TryMap PFalse FId k Empty) ctx s) as [r1 s2] eqn:E. use HR E.
+      destruct r1; injection H as <- <- <-; try exact I.
+      err_elim P. exists ext, (SFail k). auto.
 Qed.
 
 (* machine items vs specification items *)
@@ -1112,6 +1132,10 @@ Proof.
     + now rewrite app_nil_r.
   - (* NestedIn: not available in the configuration the theorem is about *)
     cbn [nested no_quirks] in H. trivial_res H.
+  - (* Skip *)
+    inv_pair H. destruct (skip_loop_spec n0 s Hinv) as (Hc & Hs & Ha & Hv).
+    exists VUnit, (cur (skip_loop toks n0 s)), []. rewrite Hc, Hs, Ha, app_nil_r. repeat split; auto.
+    rewrite <- Hc. exact Hv.
   - (* ExtWrap *)
     destruct (go n m g ctx s) as [r1 s2] eqn:E. use IH E.
     destruct r1; try trivial_res H.
